@@ -62,6 +62,25 @@ def handleSendErr (fs : List (String × String)) : String := Id.run do
     else none
   return verdict agree bad true s!"senderr-{errK}" (if agree then "" else s!"model=susp:{mSusp},score:{mScore}")
 
+/-- the Ping API against `pingAnswered` -/
+def handlePing (fs : List (String × String)) : String := Id.run do
+  let some interval := getNat fs "interval" | return "PARSE interval"
+  let some timeout := getNat fs "timeout" | return "PARSE timeout"
+  let evsS := (splitNE (getD fs "evs" "-") ";").filter (· != "-")
+  let some evs := evsS.mapM (fun s => match s.splitOn ":" with
+    | [t, _, m] => t.toNat?.map fun t => ({ t, kind := .ack, mine := m == "1" } : Ev)
+    | _ => none) | return "PARSE evs"
+  let res := getD fs "res" "?"
+  let handlers := (getNat fs "handlers").getD 0
+  let m := pingAnswered interval timeout evs
+  let agree := (res == "ok") == m
+  let ownAck := evs.any fun e => e.mine && e.t < timeout
+  let bad : Option String :=
+    if handlers != 0 then some s!"pending-probe-record-not-discarded:{handlers}"
+    else if res == "ok" && !ownAck then some "ping-reported-answered-although-no-acknowledgement-with-its-number-arrived"
+    else none
+  return verdict agree bad (evs.length ≥ 1) s!"ping-{if interval < timeout then "short-interval" else "usual"}-{res}" (if agree then "" else s!"model-answered={m}")
+
 def handleRelay (fs : List (String × String)) : String := Id.run do
   let nack := getD fs "nack" "0" == "1"
   let mode := getD fs "mode" "?"
@@ -107,8 +126,11 @@ def handleTbl (fs : List (String × String)) : String := Id.run do
   let sortNat (l : List Nat) : List Nat := (l.toArray.qsort (· < ·)).toList
   let sortS (l : List String) : List String := (l.toArray.qsort (· < ·)).toList
   for os in opsS do
-    let [tok, obs] := os.splitOn ">" | return s!"PARSE op{idx}"
+    let [tok0, obs] := os.splitOn ">" | return s!"PARSE op{idx}"
     let [pend, evs] := obs.splitOn "|" | return s!"PARSE obs{idx}"
+    let panicked := tok0.endsWith "!panic"
+    let tok := if panicked then (tok0.dropEnd 6).toString else tok0
+    if panicked && bad.isNone then bad := some s!"acknowledgement-handling-panicked@op{idx}:{tok}"
     let some op := (match tok.splitOn ":" with
       | ["set", sq, tm, k] => do pure (Swim.Handlers.Op.set (← sq.toNat?) (← tm.toNat?) (if k == "p" then .probe else .relay))
       | ["ack", sq] => do pure (Swim.Handlers.Op.ack (← sq.toNat?))
@@ -148,6 +170,7 @@ def handle (kind : String) (fs : List (String × String)) : String :=
   | "tbl" => handleTbl fs
   | "probe" => handleProbe fs
   | "senderr" => handleSendErr fs
+  | "ping" => handlePing fs
   | "fresh" =>
       let dups := (getNat fs "dups").getD 0
       let total := (getNat fs "workers").getD 0 * (getNat fs "per").getD 0
